@@ -137,7 +137,9 @@ impl Substitute for StringName {
             } else if string_names.len() == 1 {
                 Ok(string_names.iter().next().expect("Unreachable").clone())
             } else {
-                let names: Vec<Name> = string_names.iter().map(Name::from).collect();
+                // as_direct() yields a HashSet: order the members, otherwise the same union
+                // gives different (unequal) `Union[..]` names from one run to the next
+                let names: Vec<Name> = string_names.iter().sorted().map(Name::from).collect();
                 Ok(StringName::new(UNION, names.as_slice()))
             }
         } else {
